@@ -17,7 +17,7 @@ import numpy
 from .. import engine, fpx
 from ..translate import blocks
 
-THEOREMS = ["generated_wf", "ties_next", "next_constant_value", "next_all_precisions", "neighbours", "next_up_generated", "is_power_of_two_all_precisions", "next_up_bit_exact_f32"]
+THEOREMS = ["generated_wf", "ties_next", "next_constant_value", "next_all_precisions", "neighbours", "next_up_generated", "is_power_of_two_all_precisions", "next_up_bit_exact_f32", "refinement_scope"]
 SEARCHED = ["is_power_of_two exact", "3Sum s+e+t = x+y+z and 1-ULP bound", "4Sum 1 ULP", "mul_add 2 ULP", "dot2 3 ULP",
             "every FMA variant within 1 ULP of RN(x*y+z)"]
 TRUSTED = [
